@@ -12,8 +12,8 @@
 
 #define NT 16
 static int m_hb=-1, m_tso=-1;
-static inline bool hb_on(){ if(m_hb<0) m_hb=vf_mode_hb(); return m_hb; }
-static inline bool tso_on(){ if(m_tso<0) m_tso=vf_mode_tso(); return m_tso; }
+static inline bool hb_on(){ if(m_hb<0) m_hb=vf_mode_hb(); return m_hb>0; }
+static inline bool tso_on(){ if(m_tso<0) m_tso=vf_mode_tso(); return m_tso>0; }
 
 // ------------------------------------------------------------------ happens-before clocks
 struct VC{ uint32_t c[NT]; void join(const VC&o){ for(int i=0;i<NT;i++) if(o.c[i]>c[i]) c[i]=o.c[i]; } bool leq(const VC&o)const{ for(int i=0;i<NT;i++) if(c[i]>o.c[i]) return false; return true; } bool any()const{ for(int i=0;i<NT;i++) if(c[i]) return true; return false; } };
@@ -61,8 +61,10 @@ static inline void tso_maybe_drain(int t){ if(bufs[t].n>0 && vf_choose(2)){ vf_f
 static bool fwd(int t,const volatile void*a,int n,uint64_t*out){ Buf&b=bufs[t]; for(int i=b.n-1;i>=0;i--){ if(b.e[i].a==(void*)a && b.e[i].n==n){ *out=b.e[i].v; return true;}
    uintptr_t x=(uintptr_t)b.e[i].a,y=(uintptr_t)a; if(x<y+n && y<x+b.e[i].n){ drain(t); return false; } } return false; }
 // plain accesses (only present in TSO builds, which keep -tsan-instrument-memory-accesses on): keep store order
+// A forced drain is preceded by a scheduling point: on real hardware the buffered store could stay invisible while other threads
+// run up to this moment, so the explorer must be able to run them here (found by the store-buffering self-test, tools/selftest.py).
 static inline void plain_access(const void*a,int n,int w){ if(m_tso<=0) return; int t=vf_self(); if(t<0||bufs[t].n==0) return;
-  if(w){ drain(t); return; } Buf&b=bufs[t]; uintptr_t y=(uintptr_t)a; for(int i=0;i<b.n;i++){ uintptr_t x=(uintptr_t)b.e[i].a; if(x<y+n && y<x+b.e[i].n){ drain(t); return; } } }
+  if(w){ vf_point_local("tso-drain"); drain(t); return; } Buf&b=bufs[t]; uintptr_t y=(uintptr_t)a; for(int i=0;i<b.n;i++){ uintptr_t x=(uintptr_t)b.e[i].a; if(x<y+n && y<x+b.e[i].n){ vf_point_local("tso-drain"); drain(t); return; } } }
 
 extern "C" void vf_rt_reset(){ nwr=0; nwlog=0; for(int i=0;i<NT;i++) bufs[i].n=0; if(hb_init){ RL->clear(); SH->clear(); memset(C,0,sizeof C); memset(PEND,0,sizeof PEND); memset(FREL,0,sizeof FREL); memset(&SCF,0,sizeof SCF); for(int i=0;i<NT;i++) C[i].c[i]=1; } }
 
